@@ -251,6 +251,49 @@ def gen_seeded(rng, tier):
         yield Case("cli_seeded", [st, "sample", "sites", "-l", str(rng.choice([1, max(1, L // 2), L])), "--consecutive=false", "--seed", s],
                    L >= 2, "seeded-sample-sites-scattered")
         yield Case("cli_seeded", [st, "mutate", "snvs", "-r", rng.choice(["0.25", "0.5", "0.1", "0.75", "1", "0"]), "--seed", s], True, "seeded-mutate-snvs")
+        # --- commands given as `cmd sub <flags>`: flags in random order, each present or left to its default -------------
+        frac = lambda: rng.choice(["0", "0.1", "0.25", "0.3", "0.5", "0.6", "0.75", "0.9", "1"] * 3 + ["1.5", "-0.5"])   # noqa: E731
+
+        def flags(*opts):
+            """opts: (names, value or None for a switch, probability of being present)"""
+            fl = [[rng.choice(names)] + ([] if v is None else [v]) for names, v, p in opts if rng.random() < p]
+            fl.append(["--seed", s])
+            rng.shuffle(fl)
+            return [x for f in fl for x in f]
+        yield Case("cli_seeded", [st, "shuffle", "sites"] + flags((["-r", "--rate"], frac(), 0.8), (["--rogue"], frac(), 0.6), (["--stable-rogues"], None, 0.4),
+                                                                  (["--rogue-file"], rng.choice(["none", "stdout", "-"]), 0.3)),
+                   n >= 2, "seeded-shuffle-sites")
+        yield Case("cli_seeded", [st, "shuffle", "swap"] + flags((["-r", "--rate"], rng.choice(["0", "0.3", "0.5", "0.6", "0.75", "0.9", "1", "1", "1", "1.5", "-0.5"]), 0.8), (["--pos"], rng.choice(["0", "0.25", "0.5", "0.7", "1", "-1", "2"]), 0.4)),
+                   n >= 2, "seeded-shuffle-swap")
+        yield Case("cli_seeded", [st, "shuffle", "recomb"] + flags((["-n", "--prop-seq"], rng.choice(["0", "0.1", "0.25", "0.3", "0.4", "0.5", "0.5", "0.6", "-0.5"]), 0.7),
+                                                                   (["-l", "--prop-length"], frac(), 0.7), (["--swap"], None, 0.5)),
+                   n >= 2, "seeded-shuffle-recomb")
+        yield Case("cli_seeded", [st, "shuffle", "rogue"] + flags((["-n", "--prop-seq"], frac(), 0.7), (["-l", "--length"], frac(), 0.7),
+                                                                  (["--rogue-file"], rng.choice(["none", "stdout", "-"]), 0.3)),
+                   n >= 2, "seeded-shuffle-rogue")
+        yield Case("cli_seeded", [st, "mutate", "gaps"] + flags((["-r", "--rate"], frac(), 0.7), (["-n", "--prop-seq"], frac(), 0.7)), True, "seeded-mutate-gaps")
+        # --- seeded commands with side files (`cli_libf`: the driver places / collects the files) --------------------------
+        names = [r[0] for r in rows]
+        counted = rng.sample(names, rng.randint(1, n))
+        rng.shuffle(counted)
+        cnt = [(x, rng.randint(1, 4)) for x in counted]
+        kind = rng.random()
+        if kind < 0.08:
+            cnt[rng.randrange(len(cnt))] = (cnt[0][0], rng.choice([0, -1]))
+        elif kind < 0.16:
+            cnt.append(("nope", 2))
+        elif kind < 0.24:
+            cnt.append((cnt[0][0], rng.randint(1, 5)))       # the same name twice: the later line counts
+        elif kind < 0.27:
+            cnt = []
+        total = sum(v for _, v in cnt)
+        cfile = "counts.txt=" + "".join("%s~%d|" % kv for kv in cnt)
+        yield Case("cli_libf", [st, cfile, "sample", "rarefy"] + flags((["-n", "--nb-seq"], str(rng.choice([0, 1, max(1, total // 3), max(1, total // 2), max(1, total - 1), max(1, total - 1), max(0, total), rng.choice([1, -1])])), 0.9),
+                                                                       (["-c", "--counts"], "counts.txt", 1.0), (["-r", "--replicates"], str(rng.choice([0, 1, 2, 2, 3, 3])), 0.6)),
+                   True, "seeded-sample-rarefy")
+        yield Case("cli_libf", [st, "_", "build", "seqboot"] + flags((["-n", "--nboot"], str(rng.randint(0, 3)), 0.8), (["-f", "--frac"], rng.choice(["0.25", "0.5", "0.75", "1", "0.3", "0", "1.5"]), 0.5),
+                                                                     (["-o", "--out-prefix"], rng.choice(["boot", "b_"]), 0.95), (["-S", "--shuf-order"], None, 0.4)),
+                   True, "seeded-build-seqboot")
 
 
 def gen(rng, tier):
